@@ -64,7 +64,16 @@ func Bytes(name string, n int) []byte {
 }
 
 // Blob is Bytes carried as one wide solver variable (same native behaviour).
-func Blob(name string, n int) []byte { return Bytes(name, n) }
+func Blob(name string, n int) []byte {
+	load()
+	k := cursor[name+"[]"]
+	b := Bytes(name, n)
+	if ref, ok := assignment[fmt.Sprintf("%s[]#%d@addr", name, k)]; ok && n == 20 && len(ref) == 1 {
+		a := AddrOf(int(ref[0])) // the counterexample chose "the address of honest key i"
+		copy(b, a[:])
+	}
+	return b
+}
 
 // MalformedSig returns 65 bytes on which ecrecover fails for every digest: r = 0, other bytes from the assignment.
 func MalformedSig(name string) []byte {
